@@ -329,6 +329,12 @@ impl World {
         let t_enter = clock::now();
         let reads_enter = clock::reads();
         self.call_idx += 1;
+        if let Some((at, ns)) = self.sc.faults.wall_clock_back {
+            if self.call_idx == at && self.running {
+                clock::step_wall_clock_back(ns);
+                self.counters.add("fault.wall_clock_step_back", 1);
+            }
+        }
         self.calls.push(CallLite {
             site,
             t_enter,
@@ -431,7 +437,7 @@ impl World {
             (Site::Bind, true) => &[libc::EADDRNOTAVAIL, libc::EADDRINUSE, libc::EINPROGRESS],
             (Site::Bind, false) => &[libc::EACCES, libc::EINVAL, libc::EADDRINUSE],
             (Site::SetTtl | Site::SetTos | Site::SetHops | Site::SetHdrIncl | Site::SetReusePort, _) => {
-                &[libc::EINVAL, libc::ENOPROTOOPT, libc::EBADF]
+                &[libc::EINVAL, libc::ENOPROTOOPT, libc::EBADF, libc::EPERM, libc::EACCES]
             }
             (Site::Connect, true) => &[libc::ENETUNREACH, libc::EADDRINUSE],
             (Site::Connect, false) => &[
